@@ -246,6 +246,24 @@ fn view(e: &PreprocessorCacheEntry) -> (Sx, Sx) {
     )
 }
 
+/// The "date" of a step: SOURCE_DATE_EPOCH bytes (empty = unset), or - bytes starting with '@' - a TIME ZONE:
+/// "@A" = UTC-12, "@B" = UTC+14, whose local calendar days always differ (26 h apart), SOURCE_DATE_EPOCH unset.
+/// chrono re-reads TZ at most once per second, hence the wait after a change.
+fn set_date(date: &[u8]) {
+    if date.first() == Some(&b'@') {
+        std::env::remove_var("SOURCE_DATE_EPOCH");
+        let tz = if date == b"@A" { "<-12>12" } else { "<+14>-14" };
+        if std::env::var("TZ").ok().as_deref() != Some(tz) {
+            std::env::set_var("TZ", tz);
+            std::thread::sleep(Duration::from_millis(1250));
+        }
+    } else if date.is_empty() {
+        std::env::remove_var("SOURCE_DATE_EPOCH");
+    } else {
+        std::env::set_var("SOURCE_DATE_EPOCH", OsStr::from_bytes(date));
+    }
+}
+
 fn run_ppcache_once(case: &Sx) -> Result<Sx, String> {
     let td = tempfile::Builder::new().prefix("vh-c04-").tempdir_in("/dev/shm").map_err(|e| e.to_string())?;
     let mut w = World {
@@ -267,11 +285,7 @@ fn run_ppcache_once(case: &Sx) -> Result<Sx, String> {
             let key = step.arg(3).str();
             let incs = step.arg(4).list();
             let start = w.realise(j, step.arg(5).list(), true)?;
-            if date.is_empty() {
-                std::env::remove_var("SOURCE_DATE_EPOCH");
-            } else {
-                std::env::set_var("SOURCE_DATE_EPOCH", OsStr::from_bytes(&date));
-            }
+            set_date(&date);
             // phase 1, for every configuration: the include recorder (process_preprocessed_file's part)
             let mut recorded: Vec<Result<Option<(Vec<(String, PathBuf)>, Vec<Truth>)>, ()>> = vec![];
             for ci in 0..per.len() {
@@ -319,15 +333,30 @@ fn run_ppcache_once(case: &Sx) -> Result<Sx, String> {
                 });
             }
             // the window between the recorder and add_result (the preprocessor output is hashed in between):
-            // somebody removes files
-            for v in step.arg(6).list() {
-                let p = w.path(v.bytes());
-                if let Ok(m) = std::fs::symlink_metadata(&p) {
-                    if m.is_dir() {
-                        let _ = std::fs::remove_dir_all(&p);
-                    } else {
-                        let _ = std::fs::remove_file(&p);
+            // somebody removes files (bare name) or rewrites them (a file entry; written AFTER the start instant)
+            let window = step.arg(6).list();
+            if window.iter().any(|v| !v.list().is_empty()) {
+                loop {
+                    if SystemTime::now() > start + TICK {
+                        break;
                     }
+                    std::thread::sleep(Duration::from_millis(2));
+                }
+            }
+            for v in window {
+                if v.list().is_empty() {
+                    let p = w.path(v.bytes());
+                    if let Ok(m) = std::fs::symlink_metadata(&p) {
+                        if m.is_dir() {
+                            let _ = std::fs::remove_dir_all(&p);
+                        } else {
+                            let _ = std::fs::remove_file(&p);
+                        }
+                    }
+                } else {
+                    w.write_content(v);
+                    w.set_mtime(v);
+                    w.last_touch = std::time::Instant::now();
                 }
             }
             // phase 2: add_result
@@ -357,11 +386,7 @@ fn run_ppcache_once(case: &Sx) -> Result<Sx, String> {
         } else if tag == "look" {
             let date = step.arg(1).bytes().to_vec();
             w.realise(j, step.arg(2).list(), false)?;
-            if date.is_empty() {
-                std::env::remove_var("SOURCE_DATE_EPOCH");
-            } else {
-                std::env::set_var("SOURCE_DATE_EPOCH", OsStr::from_bytes(&date));
-            }
+            set_date(&date);
             for (ci, pc) in per.iter_mut().enumerate() {
                 let cfg = cfg_of(ci as u32);
                 let mut updated = false;
